@@ -34,12 +34,16 @@ def run(ctx):
                  ("ImageCopyMC", "C04_mc_t5.cfg", "diamond2, two registries, 1 fault + cancel, full interleaving", {"timeout": 3000})]
     mc, states, trans = cc.run_mc(ctx, runs)
     defect = cc.defect_model_run(ctx)
+    late = ctx.tlc("ImageCopyMC", "C04_mc_latetag.cfg", allow_violation=True,
+                   label="sigloop + digest tags: the finalFn retry writes after the tag (findings/C04-2): expected counterexample")["violated"]
 
     # 2. scenarios: TLC schedules with faults + single fault / cancel / death sweep
     scripts = cc.tlc_scripts(e, "C04_gen.cfg", 1500 if th else 400, "tlc")
     base = []
     pairs4 = ["tworeg", "samereg", "reg2dir", "dir2reg", "samerepo"]
     for sh in e.shapes:
+        if sh in cc.LOOP_SHAPES:
+            continue        # (every digest-tag run on them hits the known finding C04-2: a few explicit members below)
         for pr in pairs4:
             osets = e.option_sets(sh)
             for opts in (osets if th else [osets[0]] + rng.sample(osets[1:], min(2, len(osets) - 1))):
@@ -88,7 +92,10 @@ def run(ctx):
                  script=[{"op": "rel", "host": "src", "class": "manifest_get", "n": "S"},
                          {"op": "rel", "host": "src", "class": "blob_get", "n": "L2"}, {"op": "settle"},
                          {"op": "rel", "host": "src", "class": "blob_get", "n": "LB"}, {"op": "settle"}])
-    scns = scripts + sw + sh_sw + slow + rew + e.client_history("history")
+    scns = scripts + sw + sh_sw + slow + rew + e.client_history("history") + e.round4("round4")
+    loopy = [x for x in scns if x["shape"] in cc.LOOP_SHAPES and x["opts"].get("dtags")]
+    keep = set(id(x) for x in loopy[:(30 if th else 6)])
+    scns = [x for x in scns if not (x["shape"] in cc.LOOP_SHAPES and x["opts"].get("dtags")) or id(x) in keep]
     scns, dropped = cc.limit_defect_prone(rng, scns, 700 if th else 300)
     res = bres + e.run(scns + [demo], "faults")
 
@@ -112,7 +119,7 @@ def run(ctx):
         "rule": "an evaluation = one ImageCopy of a catalogue shape on the real code under a request schedule with fault / "
                 "cancel / death positions (TLC generated, or swept over every request position of a fault-free run), every "
                 "observed target state judged; distinct = distinct (configuration, fault positions, request sequence)",
-        "exhaustive": False, "model_vs_code": cc.model_agreement(res), "defect_model": defect,
+        "exhaustive": False, "model_vs_code": cc.model_agreement(res), "defect_model": defect, "latetag_model": late,
         "defect_prone_scenarios_dropped": dropped, "binding_demos": demos,
         "fault_kinds": cc.FATAL + cc.TRANSIENT + ["stall", "cancel", "death"], "entry_points": cc.ENTRY_POINTS,
     })
